@@ -225,6 +225,17 @@ def Dst.put (d : Dst K V) (c : Cell K V) (h : HMap K V) : Dst K V × HMap K V :=
     else (d, h)
   ({ d with chain := d.chain.set (d.bi * bucketCnt + d.i) c, i := d.i + 1 }, h)
 
+/-- the evacuation decision of `evacuate` for one filled cell: (useY, tophash in the new table) -/
+def evacDecide (o : Ops K) (newbit : Nat) (c : Cell K V) (h : HMap K V) : Except Err (Bool × UInt8 × HMap K V) :=
+  if !h.sameSizeGrow then do
+    let (hash, h) ← hashKey o h.hash0 c.key h
+    if h.iterFlag && !o.reflexiveKey && !o.eq c.key c.key then
+      -- key != key (NaN): the low bit of the old tophash decides, a fresh random tophash is drawn
+      pure (decide (c.top &&& 1 = 1), tophash hash, h)
+    else
+      pure (decide (hash.toNat % (2 * newbit) ≥ newbit), c.top, h)      -- hash & newbit != 0
+  else pure (false, c.top, h)
+
 /-- the two nested loops of `evacuate` over the cells of the old chain; returns the marked old cells -/
 def evacCells (o : Ops K) (newbit : Nat) : List (Cell K V) → Dst K V → Dst K V → HMap K V →
     Except Err (List (Cell K V) × Dst K V × Dst K V × HMap K V)
@@ -235,24 +246,17 @@ def evacCells (o : Ops K) (newbit : Nat) : List (Cell K V) → Dst K V → Dst K
       pure ({ c with top := evacuatedEmpty } :: rest, x, y, h)
     else do
       let h := if c.top < minTopHash then { h with throws := h.throws + 1 } else h   -- throw("bad map state")
-      let (useY, top, h) ←
-        if !h.sameSizeGrow then do
-          let (hash, h) ← hashKey o h.hash0 c.key h
-          if h.iterFlag && !o.reflexiveKey && !o.eq c.key c.key then
-            pure (decide (c.top &&& 1 = 1), tophash hash, h)
-          else
-            pure (decide (hash.toNat % (2 * newbit) ≥ newbit), c.top, h)
-        else pure (false, c.top, h)
+      let (useY, top, h) ← evacDecide o newbit c h
       let moved : Cell K V := { top := top, key := c.key, val := c.val }
-      let marked : Cell K V := { c with top := if useY then evacuatedY else evacuatedX }
-      if useY then do
-        let (y, h) := y.put moved h
-        let (rest, x, y, h) ← evacCells o newbit cs x y h
-        pure (marked :: rest, x, y, h)
-      else do
-        let (x, h) := x.put moved h
-        let (rest, x, y, h) ← evacCells o newbit cs x y h
-        pure (marked :: rest, x, y, h)
+      let (x, y, h) : Dst K V × Dst K V × HMap K V :=
+        if useY then
+          let (y, h) := y.put moved h
+          (x, y, h)
+        else
+          let (x, h) := x.put moved h
+          (x, y, h)
+      let (rest, x, y, h) ← evacCells o newbit cs x y h
+      pure ({ c with top := if useY then evacuatedY else evacuatedX } :: rest, x, y, h)
 
 /-- `bucketEvacuated(t, h, bucket)` -/
 def bucketEvacuated (oa : Array (Chain K V)) (bucket : Nat) : Bool :=
